@@ -92,6 +92,18 @@ func c05Relational(c *Ctx, arms map[int64]OpArm) {
 			c.R.Undecided(rule, "handler:"+rs.symbol, pos, "handler does not take two operand values")
 			continue
 		}
+		// a handler that only hands (left, right) to a helper and returns its results is judged through the helper
+		for d := 0; d < 2; d++ {
+			g := c.delegateOf(c.foldWith(h, 0), ops)
+			if g == nil {
+				break
+			}
+			gops := operandParams(g)
+			if len(gops) != 2 {
+				break
+			}
+			h, ops = g, gops
+		}
 		// the dispatcher passes (left value, right value) in order: checked by C07.order; here: inside the handler
 		if c.relationalViaKernel(rule, rs.symbol, rs.vec, h, ops) {
 			continue
@@ -151,6 +163,32 @@ func c05Relational(c *Ctx, arms map[int64]OpArm) {
 				okStr = true
 			} else {
 				why = fmt.Sprintf("string branch computes `left %s right` with operands in order=%v", bo.Op, c.coercedFrom(bo.X, ops[0]) && c.coercedFrom(bo.Y, ops[1]))
+			}
+		}
+		if !okStr {
+			// strings.Compare(left, right) OP k: the same predicate over the three-way result as for numbers
+			var cmpCall *ssa.Call
+			for _, call := range r.ReachableCalls() {
+				if cc, ok := call.(*ssa.Call); ok && calleeOf(cc) != nil && calleeOf(cc).String() == "strings.Compare" {
+					cmpCall = cc
+				}
+			}
+			if cmpCall != nil && len(cmpCall.Call.Args) == 2 && c.coercedFrom(cmpCall.Call.Args[0], ops[0]) && c.coercedFrom(cmpCall.Call.Args[1], ops[1]) {
+				var got [3]bool
+				all := true
+				for i, k := range []int64{-1, 0, 1} {
+					rr := c.foldWith(h, 1, pinTypeCase(ops[0], "string"), pinCall("strings.Compare", cInt(k), nil))
+					b, ok := boxedBoolResult(rr, 0)
+					if !ok {
+						all = false
+					}
+					got[i] = b
+				}
+				if all && got == rs.vec {
+					okStr = true
+				} else {
+					why = fmt.Sprintf("over strings.Compare = (-1,0,+1) the result is (%s,%s,%s)", tf(got[0]), tf(got[1]), tf(got[2]))
+				}
 			}
 		}
 		c.R.Check(rule, "string-operator:"+rs.symbol, pos, okStr, "strings must compare byte-wise with Go's `"+rs.symbol+"` on (left, right); "+why)
